@@ -1643,6 +1643,36 @@ def c10_method_case(key, vals):
 
 
 @replayer
+def c10_ctor_case(key, vals):
+    """the same through the class's own constructor: Cls(*vals) raises, marshal raises, or the peer reads what was GIVEN
+    (a falsy value given for an `x or default` argument is the constructor's documented normalisation and is not compared)"""
+    cls = commands.INDEX_MAPPING[key]
+    k0, obj = catching(lambda: cls(*vals))
+    if k0 != 'ok':
+        return None
+    k, b = catching(frame.marshal, obj, 1)
+    if k != 'ok':
+        return None
+    with real.deadline(5):
+        k2, r = catching(frame.unmarshal, b)
+    if k2 != 'ok':
+        return ('decodable', '%s %r' % (k2, r))
+    for a, v in zip(cls.__slots__, vals):
+        got = getattr(r[2], a)
+        if documented_exception(v):
+            continue
+        try:
+            falsy = not v
+        except Exception:  # noqa
+            falsy = False
+        if falsy:
+            continue
+        if not norm_eq(v, got):
+            return ('%s=%r' % (a, v), '%s=%r' % (a, got))
+    return None
+
+
+@replayer
 def c10_props_case(vals):
     k, b = catching(frame.marshal, real.make_header(10, vals), 1)
     if k != 'ok':
@@ -1825,7 +1855,8 @@ def oracle_c10(ctx):
                               bad[0] if k == 'ok' else 'oracle runs', bad[1] if k == 'ok' else repr(bad))
     n = 25000 if ctx.thorough else 4000
     specials = [D('-1.5'), D('1E-7'), D('1.5E-7'), -1, -128, 0, '', [], {}, D('0E-3'), D('-0.0'), D('1E+2'), D('12345678901'),
-                D('-2147483648'), D('2147483648'), D('1E-256'), 2 ** 63, -2 ** 63 - 1, 1e39, float('nan'), {'a': 0}, [0, '']]
+                D('-2147483648'), D('2147483648'), D('1E-256'), 2 ** 63, -2 ** 63 - 1, 1e39, float('nan'), {'a': 0}, [0, ''],
+                {b'x-match': 'all'}, [{b'k': 1}], {'a': {b'b': b'c'}}, {b'': 1}, {b'\xe2\x82\xac': 2}, {5: 1}, {None: 1}, {('a',): 1}, {1.5: 'x'}, {True: 1}]
     for i in range(n):
         v = specials[i] if i < len(specials) else (g.value_any(depth=g.r.choice([0, 0, 1, 2])) if i % 3 else g.scalar_any())
         legacy = i % 4 == 0
@@ -1853,6 +1884,8 @@ def oracle_c10(ctx):
                 cands += [-1, 256, 65536, 2 ** 32, 2 ** 63, -2 ** 63 - 1, 1.0, True]
             if a['ty'] == 'table':
                 cands += [0, '', [], False]
+            if a['ty'] in ('shortstr', 'longstr'):
+                cands += ['x' * 255, 'x' * 256, 'y' * 300, '\u20ac' * 85, '\u20ac' * 86, 'z' * 1000, b'raw', 5]
             for v in cands:
                 vals = lanes.method_vals_ok(ctx, cls, meta)
                 vals[i] = v
@@ -1860,6 +1893,11 @@ def oracle_c10(ctx):
                 k, bad = catching(c10_method_case, meta['key'], vals)
                 if k != 'ok' or bad:
                     res.violation('%s.%s' % (meta['name'], a['name']), {'fn': 'c10_method_case', 'args': pyrepr((meta['key'], vals))},
+                                  bad[0] if k == 'ok' else 'oracle runs', bad[1] if k == 'ok' else repr(bad))
+                res.case('ctor ' + pyrepr((meta['key'], i, v)), tag='constructed arg.' + a['ty'])
+                k, bad = catching(c10_ctor_case, meta['key'], vals)
+                if k != 'ok' or bad:
+                    res.violation('%s(%s=...) sends something else than it was given' % (meta['name'], a['name']), {'fn': 'c10_ctor_case', 'args': pyrepr((meta['key'], vals))},
                                   bad[0] if k == 'ok' else 'oracle runs', bad[1] if k == 'ok' else repr(bad))
     g.exotic = False
     nprops = len(commands.Basic.Properties.__slots__)
@@ -1918,6 +1956,41 @@ def c11_case(n, legacy, how):
                     'table': struct.pack('>I', 14 + len(exp)) + b'\x01kA' + struct.pack('>I', 7 + len(exp)) + b'F' + struct.pack('>I', 2 + len(exp)) + b'\x01n' + exp}[where]
             if k != 'ok' or b != want:
                 return ('%s: %s' % (where, want.hex()), b.hex() if k == 'ok' else '%s %r' % (k, b))
+    return None
+
+
+@replayer
+def c11_reencode_case(n, tag, legacy, how):
+    """an integer that came out of pamqp's own decoder (a peer may have used any tag for it) and is sent on: the ladder again"""
+    w, sg = {'b': (1, True), 'B': (1, False), 's': (2, True), 'u': (2, False), 'I': (4, True), 'i': (4, False), 'l': (8, True), 'L': (8, True)}[tag]
+    enc = tag.encode() + n.to_bytes(w, 'big', signed=sg)
+    exp = first_fit(n, legacy)
+    if how == 'table':
+        k0, d = catching(decode.field_table, struct.pack('>I', 2 + len(enc)) + b'\x01n' + enc)
+        if k0 != 'ok':
+            return None
+        v = d[1]['n']
+    elif how == 'array':
+        k0, d = catching(decode.field_array, struct.pack('>I', len(enc)) + enc)
+        if k0 != 'ok':
+            return None
+        v = d[1][0]
+    else:
+        tbl = struct.pack('>I', 2 + len(enc)) + b'\x01n' + enc
+        payload = struct.pack('>HHQH', 60, 0, 0, 0x2000) + tbl
+        k0, d = catching(frame.unmarshal, b'\x02\x00\x01' + struct.pack('>I', len(payload)) + payload + b'\xce')
+        if k0 != 'ok':
+            return None
+        v = d[2].properties.headers['n']
+    if v != n:
+        return None         # what the decoder reads is C03/C05's business
+    with real.legacy(legacy):
+        outs = {'value': catching(encode.encode_table_value, v), 'top': catching(encode.table_integer, v),
+                'table': catching(encode.field_table, {'n': v}), 'sum': catching(encode.table_integer, v + 0)}
+    for where, (k, b) in outs.items():
+        want = {'value': exp, 'top': exp, 'sum': exp, 'table': struct.pack('>I', 2 + len(exp)) + b'\x01n' + exp}[where]
+        if k != 'ok' or b != want:
+            return ('%s: %s' % (where, want.hex()), b.hex() if k == 'ok' else '%s %r' % (k, b))
     return None
 
 
@@ -2153,6 +2226,16 @@ def oracle_c11(ctx):
             bad = c11_case(n, legacy, 'default-arg' if i % 2 else 'explicit')
             if bad:
                 res.violation('table integer %s legacy=%s' % (pyrepr(n)[:60], legacy), {'fn': 'c11_case', 'args': pyrepr((n, legacy, 'default-arg' if i % 2 else 'explicit'))}, bad[0], bad[1])
+    for tag_, lo_, hi_ in [('b', -128, 127), ('B', 0, 255), ('s', -2 ** 15, 2 ** 15 - 1), ('u', 0, 2 ** 16 - 1), ('I', -2 ** 31, 2 ** 31 - 1), ('i', 0, 2 ** 32 - 1),
+                           ('l', -2 ** 63, 2 ** 63 - 1), ('L', -2 ** 63, 2 ** 63 - 1)]:
+        for n in sorted({x for x in [lo_, hi_, 0, 1, 5, -1, -5, 127, 128, 255, 256, 40000, 65535, 65536, 3000000000, 2 ** 31 - 1, 2 ** 31, g.r.randrange(lo_, hi_ + 1)] if lo_ <= x <= hi_}):
+            for legacy in (False, True):
+                for how in ('table', 'array', 'header'):
+                    res.case('reencode %s %d %s %s' % (tag_, n, legacy, how), tag='decoded integer sent on')
+                    k_, bad = catching(c11_reencode_case, n, tag_, legacy, how)
+                    if k_ != 'ok' or bad:
+                        res.violation('integer %d decoded from tag %s and encoded again (%s, legacy=%s)' % (n, tag_, how, legacy),
+                                      {'fn': 'c11_reencode_case', 'args': pyrepr((n, tag_, legacy, how))}, bad[0] if k_ == 'ok' else 'oracle runs', bad[1] if k_ == 'ok' else repr(bad))
     for fname in ['short_int', 'short_uint', 'long_int', 'long_uint', 'long_long_int']:
         for n in g.int_bounds:
             res.case('%s %d' % (fname, n), tag='guard')
@@ -2920,6 +3003,12 @@ def oracle_c14(ctx):
                 got = getattr(inst, S.pyname(a))
                 if got != want or type(got) is not type(want):
                     bad('default of %s' % a, want, got)
+    for nm in sorted(c_.name for c_ in commands.INDEX_MAPPING.values()) + ['Basic.Properties']:
+        res.case('doc ' + nm, tag='documented defaults / name order')
+        k, badd = catching(c14_doc_case, nm)
+        if k != 'ok' or badd:
+            res.violation('%s: documentation / annotations disagree with the constructor' % nm, {'fn': 'c14_doc_case', 'args': pyrepr((nm,))},
+                          badd[0] if k == 'ok' else 'oracle runs', badd[1] if k == 'ok' else repr(badd))
     for k in commands.INDEX_MAPPING:
         res.case('key %x' % k, tag='mapping key')
         if k not in seen:
@@ -3182,6 +3271,55 @@ def env_snapshots(res, which):
         if k != 'ok' or bad:
             res.violation('the tables differ in an interpreter started with %s%s' % (' '.join(flags) or 'no flags', ' and a populated environment' if pollute else ''),
                           {'fn': 'env_snapshot_case', 'args': pyrepr((which, flags, pollute))}, bad[0] if k == 'ok' else 'oracle runs', bad[1] if k == 'ok' else repr(bad))
+
+
+def _doc_defaults(doc):
+    """':param name:' followed by '- Default: ``v``' -> {name: text} (read from the documentation side)"""
+    out, cur = {}, None
+    for line in (doc or '').splitlines():
+        t = line.strip()
+        if t.startswith(':param '):
+            cur = t[len(':param '):].split(':', 1)[0].strip()
+        elif t.startswith((':raises', ':rtype', ':return')):
+            cur = None
+        elif t.startswith('- Default:') and cur:
+            v = t[len('- Default:'):].strip()
+            out[cur] = v[2:-2] if v.startswith('``') and v.endswith('``') and len(v) >= 4 else v
+    return out
+
+
+@replayer
+def c14_doc_case(name):
+    """the documentation of a class and its constructor state the same defaults, and the class lists its argument
+    names in one order everywhere (__slots__, attributes(), __annotations__, the constructor's parameters)"""
+    import inspect
+    cls = commands.Basic.Properties if name == 'Basic.Properties' else getattr(getattr(commands, name.split('.')[0]), name.split('.')[1])
+    slots = list(cls.__slots__)
+    ann = [k for k in getattr(cls, '__annotations__', {}) if not k.startswith('__')]
+    if ann != slots:
+        return ('__annotations__ lists %r' % (slots,), ann)
+    own = '__init__' in vars(cls)
+    params = [k for k in inspect.signature(cls.__init__).parameters if k != 'self'] if own else []
+    if own and params != slots:
+        return ('constructor parameters in the order %r' % (slots,), params)
+    docs = _doc_defaults(cls.__doc__)
+    extra = [k for k in docs if k not in slots]
+    if extra:
+        return ('documented defaults only for arguments of the class', extra)
+    sig = inspect.signature(cls.__init__).parameters if own else {}
+    for a in slots:
+        if a not in sig:
+            continue
+        d, stated = sig[a].default, docs.get(a)
+        if d is None:
+            ok = stated is None or (stated == '{}' and cls.amqp_type(a) == 'table')
+        elif isinstance(d, str):
+            ok = (stated == d) if d else stated in (None, "''")
+        else:
+            ok = stated == repr(d)
+        if not ok:
+            return ('%s: documentation and constructor state the same default (%r)' % (a, d), 'documentation says %r' % (stated,))
+    return None
 
 
 @replayer
@@ -3519,6 +3657,19 @@ class SubDT(datetime.datetime):
 cases = json.load(sys.stdin)
 out = []
 for secs, micro, kind, offmin in cases:
+    if kind == 'wire':
+        # eight octets as a peer sent them (seconds, or the millisecond form a foreign peer uses), alone and inside a table
+        import struct
+        raw = struct.pack('>Q', secs)
+        try:
+            n, d = decode.timestamp(raw)
+            n2, t2 = decode.field_table(struct.pack('>I', 11) + b'\x01tT' + raw)
+            if t2['t'] != d or t2['t'].isoformat() != d.isoformat():
+                raise AssertionError('a table timestamp decodes differently from its 8 bytes')
+            out.append([raw.hex(), n, d.isoformat(), str(d.tzinfo), d.utcoffset().total_seconds(), '', secs])
+        except Exception as e:
+            out.append(['err', type(e).__name__])
+        continue
     base = datetime.datetime(1970, 1, 1) + datetime.timedelta(seconds=secs, microseconds=micro)
     via_props = kind.startswith('props_')
     if via_props:
@@ -3612,6 +3763,13 @@ def oracle_c15(ctx):
     for _ in range(3000 if ctx.thorough else 300):
         cases.append([g.instant_secs(), g.r.choice([0, 1, 999999]), g.r.choice(['naive', 'aware', 'struct']),
                       g.r.choice([0, 60, -300, 330, 345, 765, 840, -660])])
+    # eight octets from a peer: the second form up to 2^32-1, the millisecond form above it up to the last representable instant
+    top_ms = 253402300799999
+    wire = [0, 1, 2 ** 31, 2 ** 32 - 1, 2 ** 32, 2 ** 32 + 1, 4294967296789, 8589934592001, 2 ** 43 + 1, 2 ** 44 - 1, 2 ** 45 + 7, 32503680000999,
+            2 ** 47 - 1, 2 ** 47 + 123, top_ms, top_ms - 1, top_ms - 998, top_ms + 1, 2 ** 53 + 1, 2 ** 63, 2 ** 64 - 1, 1700000000123, 1700000000999]
+    wire += [g.r.randrange(2 ** 32, top_ms) for _ in range(400 if ctx.thorough else 60)] + [g.r.randrange(2 ** 42, top_ms) | 1 for _ in range(60)]
+    for w_ in wire:
+        cases.append([w_, 0, 'wire', 0])
     outs = {}
     procs = []
     for tz in TZS:
@@ -3633,6 +3791,16 @@ def oracle_c15(ctx):
             r = o[i]
             if r[0] == 'skip':
                 continue
+            if kind == 'wire':
+                try:
+                    want = [struct.pack('>Q', secs).hex(), 8, (EPOCH + (datetime.timedelta(seconds=secs) if secs <= 0xFFFFFFFF else datetime.timedelta(milliseconds=secs))).isoformat(), 0.0]
+                except OverflowError:
+                    want = ['err', 'ValueError']
+                have = r[:2] if r[0] == 'err' else [r[0], r[1], r[2], r[4]]
+                if have != want:
+                    res.violation('TZ=%s: the eight octets %016x decode to another instant' % (tz, secs), {'fn': 'c15_case', 'args': pyrepr((tz, c))}, want, have)
+                    break
+                continue
             secs_eff = r[6] if (kind == 'struct_local' and len(r) > 6) else secs      # local fields read as UTC
             exp_bytes = struct.pack('>Q', secs_eff).hex()
             exp_iso = (EPOCH + datetime.timedelta(seconds=secs_eff)).isoformat()
@@ -3652,6 +3820,14 @@ def c15_case(tz, c):
     env = dict(os.environ, TZ=tz, PAMQP_REPO=real.REPO, PYTHONDONTWRITEBYTECODE='1')
     p = subprocess.run([sys.executable, '-B', '-c', C15_CHILD], input=json.dumps([c]).encode(), stdout=subprocess.PIPE, env=env)
     r = json.loads(p.stdout)[0]
+    secs = c[0]
+    if c[2] == 'wire':
+        try:
+            want = [struct.pack('>Q', secs).hex(), 8, (EPOCH + (datetime.timedelta(seconds=secs) if secs <= 0xFFFFFFFF else datetime.timedelta(milliseconds=secs))).isoformat(), 0.0]
+        except OverflowError:
+            want = ['err', 'ValueError']
+        have = r[:2] if r[0] == 'err' else [r[0], r[1], r[2], r[4]]
+        return None if have == want else (want, have)
     secs = c[0]
     exp = [struct.pack('>Q', secs).hex(), 8, (EPOCH + datetime.timedelta(seconds=secs)).isoformat()]
     return None if r[:3] == exp and r[4] == 0.0 else (exp, r[:5])
